@@ -195,8 +195,9 @@ fn gen_delivery(rng: &mut Rng, prop: &str, mutable_only: bool, unpaid_bias: bool
         0
     };
     let mangle = if prop == "C04" && rng.chance(1, 10) {
-        // 1 truncated, 2 oversized (kad put path), 3 the right content in a non-canonical encoding
-        match rng.below(7) { 0 => 2, 1 | 2 => 3, _ => 1 }
+        // 1 truncated, 2 oversized (kad put path), 3 the right content in a non-canonical encoding,
+        // 4 a value of exactly the maximum packet size (kad put path): it cannot travel in one packet, the store's limit is exclusive
+        match rng.below(8) { 0 => 2, 7 => 4, 1 | 2 => 3, _ => 1 }
     } else {
         0
     };
@@ -210,7 +211,7 @@ fn gen_delivery(rng: &mut Rng, prop: &str, mutable_only: bool, unpaid_bias: bool
         }
     }
     // the size limit is enforced where records arrive from the kad network: RecordStore::put
-    let entry = if mangle == 2 { 1 } else { entry };
+    let entry = if mangle == 2 || mangle == 4 { 1 } else { entry };
     Delivery {
         entry,
         kind,
